@@ -194,6 +194,8 @@ fn check_state(root: &str, tag: &str, base: usize, path: &[Op], page: u64, divse
 		let truth: Vec<Owned> = chain_owned(&w.node, "A").into_iter().filter(|x| x.height >= start).collect();
 		let recs: Vec<OutputData> = r.outputs().into_iter().filter(|o| o.status == OutputStatus::Unspent).collect();
 		let key = |c: &crate::util::secp::pedersen::Commitment| c.0.to_vec();
+		let orig_wallet = w.w("A");
+		let orig_outs = orig_wallet.outputs();
 		let tmap: BTreeMap<Vec<u8>, &Owned> = truth.iter().map(|x| (key(&x.commit), x)).collect();
 		let rmap: BTreeMap<Vec<u8>, &OutputData> = recs.iter().map(|o| (key(&r.commit_of(o)), o)).collect();
 		for (c, x) in tmap.iter() {
@@ -207,6 +209,19 @@ fn check_state(root: &str, tag: &str, base: usize, path: &[Op], page: u64, divse
 					let lock = if x.is_coinbase { x.height + MATURITY } else { x.height };
 					let exp = (x.value, x.height, x.is_coinbase, lock, x.key_id.parent_path().to_bip_32_string());
 					let got = (o.value, o.height, o.is_coinbase, o.lock_height, o.root_key_id.to_bip_32_string());
+					// differential: the account the original wallet keeps this output in
+					if let Some(orig) = orig_outs.iter().find(|q| key(&orig_wallet.commit_of(q)) == *c) {
+						if orig.root_key_id != o.root_key_id {
+							out.problems.push((
+								"restore/account-differs-from-original".into(),
+								format!(
+									"output {} (value {}) is held in account path {} by the original wallet but in account path {} by the wallet restored from the same seed",
+									x.key_id.to_bip_32_string(), x.value, orig.root_key_id.to_bip_32_string(), o.root_key_id.to_bip_32_string()
+								),
+								desc(json!({"restore_from": start})),
+							));
+						}
+					}
 					if exp != got || o.key_id != x.key_id {
 						out.problems.push((
 							"restore/output-attributes".into(),
